@@ -236,8 +236,10 @@ class BaseFileLock(abc.ABC):
             except:  # noqa
                 _logger.exception("Failed to release lock %s on %s", lid, fn)
             else:
-                self._lock_counter = 0
                 _logger.info('Lock %s released on %s', lid, fn)
+            finally:
+                # The file descriptor is gone either way
+                self._lock_counter = 0
 
         try:
             for _ in range(max(1, depth)):
